@@ -2621,6 +2621,17 @@ def run(chk):
     se_mx = _Inliner(model.table, MI).expand(se_m)
     launches = [n for n in walk_body(se_mx) if isinstance(n, ast.Assign) and any(is_self_attr(t) for t in n.targets) and isinstance(n.value, ast.Call)
                 and isinstance(n.value.func, ast.Attribute) and is_self_attr(n.value.func.value)]
+    if not launches:
+        # the launch result held in a local first: `started = self.<launcher>.<start>(...)` ... `self.<nodes> = started` (the local bound once)
+        loc = {}
+        for n in walk_body(se_mx):
+            if isinstance(n, ast.Assign) and len(n.targets) == 1 and isinstance(n.targets[0], ast.Name):
+                loc.setdefault(n.targets[0].id, []).append(n)
+        for n in walk_body(se_mx):
+            if isinstance(n, ast.Assign) and any(is_self_attr(t) for t in n.targets) and isinstance(n.value, ast.Name) and len(loc.get(n.value.id, ())) == 1:
+                src = loc[n.value.id][0].value
+                if isinstance(src, ast.Call) and isinstance(src.func, ast.Attribute) and is_self_attr(src.func.value):
+                    launches.append(ast.copy_location(ast.Assign(targets=n.targets, value=src), n))
     if len(launches) != 1:
         raise AnchorMissing(f"Mechanic.start_engine: self.<nodes> = self.<launcher>.<start>(...) (found {[short(n, 50) for n in launches]})")
     nodes_attr = next(t.attr for t in launches[0].targets if is_self_attr(t))
@@ -3752,4 +3763,11 @@ VARIANTS += [
        _PL_STORE_COMMENT + "            node.telemetry.store_system_metrics(node, metrics_store)"),
      V("", "keep", "esrally/telemetry.py", "    def store_system_metrics(self, node, metrics_store):\n        for device in self.devices:\n",
        "    def store_system_metrics(self, node, metrics_store):\n        if metrics_store is None:\n            return\n        for device in self.devices:\n")],
+]
+
+# launch result held in a local before it is recorded (O12.5 / O12.6 / O12.7 / O12.8 roles found through the local)
+VARIANTS += [
+    V("launch result bound to a local before it is recorded in self.nodes", "keep", _M,
+      "        self.nodes = self.launcher.start(self.node_configs)\n",
+      "        started = self.launcher.start(self.node_configs)\n        self.nodes = started\n"),
 ]
